@@ -20,7 +20,7 @@ import sys
 import time
 import traceback
 
-VERIF = '/verif'
+VERIF = os.path.dirname(os.path.dirname(os.path.dirname(os.path.abspath(__file__))))   # the tree this file lives in
 REPO = os.environ.get('VERIF_REPO', '/repo')   # VERIF_REPO: self-tests against a mutated copy only
 COQ = os.path.join(VERIF, 'coq')
 WORK = os.path.join(VERIF, '.work')
